@@ -25,9 +25,10 @@ Flat(q) == UNION {ClassSet(q.classes[m]) : m \in DOMAIN q.classes}
 Count(q) == FoldLeft(LAMBDA s, m : s + Len(q.classes[m]), 0, Idx(Len(q.classes)))
 
 \* each clause: <<name, holds>>
-Clauses(w, S0, q, jset, amin, amax) ==
+\* csets[m] = the m-th reported class as a set (computed once, by the action StSets)
+Clauses(w, S0, q, jset, amin, amax, csets) ==
   LET c == q.chem
-      rep == Flat(q)
+      rep == UNION {csets[m] : m \in DOMAIN csets}
   IN <<
    \* every reported jump joins two sites of the chosen species by a displacement that is a lattice vector apart
    <<"jump_connects_its_sites", \A jmp \in rep : Connects(w, c, jmp)>>,
@@ -40,16 +41,16 @@ Clauses(w, S0, q, jset, amin, amax) ==
    <<"each_jump_once", Cardinality(rep) = Count(q)>>,
    \* "every class is closed under the space group and under reversal"
    <<"class_closed_under_space_group",
-       \A m \in DOMAIN q.classes : \A jmp \in ClassSet(q.classes[m]) : \A g \in S0 :
-           Connects(w, c, jmp) => ActJump(w, g, c, jmp) \in ClassSet(q.classes[m])>>,
+       \A m \in DOMAIN csets : \A jmp \in csets[m] : \A g \in S0 :
+           Connects(w, c, jmp) => ActJump(w, g, c, jmp) \in csets[m]>>,
    <<"class_closed_under_reversal",
-       \A m \in DOMAIN q.classes : \A jmp \in ClassSet(q.classes[m]) : Rev(jmp) \in ClassSet(q.classes[m])>>,
+       \A m \in DOMAIN csets : \A jmp \in csets[m] : Rev(jmp) \in csets[m]>>,
    \* classes are the symmetry-unique transitions: one orbit each, none empty
    <<"class_is_one_orbit",
        \A m \in DOMAIN q.classes :
            /\ Len(q.classes[m]) > 0
            /\ (Connects(w, c, AsJump(q.classes[m][1])) =>
-                 ClassSet(q.classes[m]) \subseteq JumpOrbit(w, S0, c, AsJump(q.classes[m][1])))>>,
+                 csets[m] \subseteq JumpOrbit(w, S0, c, AsJump(q.classes[m][1])))>>,
    \* "the lattice form of the network encodes the same jumps"
    <<"lattice_form_same_jumps",
        /\ Len(q.lattice) = Len(q.classes)
@@ -62,40 +63,45 @@ Clauses(w, S0, q, jset, amin, amax) ==
   >>
 
 \* model-level lemmas the verdict relies on (never a verdict about the library)
+\* (the closure lemmas cost |jumps| x |group| evaluations; they are checked for the queries the driver marks
+\*  with q.lemma -- the first query of every world/species -- the cheap ones for every query)
 ModelSane(w, S0, q, jset, amin, amax, near) ==
-  /\ \A jmp \in jset : Rev(jmp) \in jset /\ \A g \in S0 : ActJump(w, g, q.chem, jmp) \in jset     \* jump set closed
+  /\ q.lemma =>
+       /\ \A jmp \in jset : Rev(jmp) \in jset /\ \A g \in S0 : ActJump(w, g, q.chem, jmp) \in jset     \* jump set closed
+       /\ \A jmp \in amin : Rev(jmp) \in amin /\ \A g \in S0 : ActJump(w, g, q.chem, jmp) \in amin     \* obstruction invariant
+       /\ \A jmp \in amax : Rev(jmp) \in amax /\ \A g \in S0 : ActJump(w, g, q.chem, jmp) \in amax
   /\ amin \subseteq amax
-  /\ \A jmp \in amin : Rev(jmp) \in amin /\ \A g \in S0 : ActJump(w, g, q.chem, jmp) \in amin       \* obstruction invariant
-  /\ \A jmp \in amax : Rev(jmp) \in amax /\ \A g \in S0 : ActJump(w, g, q.chem, jmp) \in amax
-  /\ \A jmp \in jset : 2 * Len2(w, jmp[3]) # q.cut2x2                                               \* cutoff not on a shell
+  /\ Cardinality(JumpSet(w, q.chem, q.cut2x2 + 1)) = Cardinality(jset)                              \* cutoff not on a shell
   \* the library's documented reading lies between the least and the most obstructive one
   /\ \A jmp \in jset : LET doc == BlockedDoc(w, q.chem, jmp, q.rad, near) IN
         (jmp \notin amax => doc) /\ (doc => jmp \notin amin)
 
-VARIABLES k, qi, phase, grp, jset, near, amin, amax, res
-vars == <<k, qi, phase, grp, jset, near, amin, amax, res>>
+VARIABLES k, qi, phase, grp, jset, near, amin, amax, csets, res
 Cur == Cases[k]
 Q == Cases[k].queries[qi]
 Name(s) == ToString(qi) \o "|" \o s
 
-Init == k = 0 /\ qi = 0 /\ phase = "load" /\ grp = {} /\ jset = {} /\ near = <<>> /\ amin = {} /\ amax = {} /\ res = <<>>
+Init == k = 0 /\ qi = 0 /\ phase = "load" /\ grp = {} /\ jset = {} /\ near = <<>> /\ amin = {} /\ amax = {} /\ csets = <<>> /\ res = <<>>
 \* each expensive value is computed by one action and then read back as a plain value
 Load == /\ phase = "load" /\ k < Len(Cases)
         /\ k' = k + 1 /\ qi' = 1 /\ grp' = OpsRT(Cases[k'].w, 2) /\ phase' = "jumps"
-        /\ UNCHANGED <<jset, near, amin, amax, res>>
+        /\ UNCHANGED <<jset, near, amin, amax, csets, res>>
 StJumps == /\ phase = "jumps"
            /\ jset' = JumpSet(Cur.w, Q.chem, Q.cut2x2) /\ phase' = "near"
-           /\ UNCHANGED <<k, qi, grp, near, amin, amax, res>>
+           /\ UNCHANGED <<k, qi, grp, near, amin, amax, csets, res>>
 StNear == /\ phase = "near"
           /\ near' = NearTable(Cur.w, Q.chem, Q.cut2x2, Q.rad, Q.band) /\ phase' = "allow"
-          /\ UNCHANGED <<k, qi, grp, jset, amin, amax, res>>
+          /\ UNCHANGED <<k, qi, grp, jset, amin, amax, csets, res>>
 StAllow == /\ phase = "allow"
            /\ amin' = {jmp \in jset : ~BlockedMost(Cur.w, Q.chem, jmp, Q.rad, Q.band, near)}
            /\ amax' = {jmp \in jset : ~BlockedLeast(Cur.w, Q.chem, jmp, Q.rad, Q.band, near)}
-           /\ phase' = "eval" /\ UNCHANGED <<k, qi, grp, jset, near, res>>
+           /\ phase' = "sets" /\ UNCHANGED <<k, qi, grp, jset, near, csets, res>>
+StSets == /\ phase = "sets"
+          /\ csets' = [m \in DOMAIN Q.classes |-> ClassSet(Q.classes[m])] /\ phase' = "eval"
+          /\ UNCHANGED <<k, qi, grp, jset, near, amin, amax, res>>
 StEval == /\ phase = "eval"
-          /\ res' = Clauses(Cur.w, grp, Q, jset, amin, amax) /\ phase' = "report"
-          /\ UNCHANGED <<k, qi, grp, jset, near, amin, amax>>
+          /\ res' = Clauses(Cur.w, grp, Q, jset, amin, amax, csets) /\ phase' = "report"
+          /\ UNCHANGED <<k, qi, grp, jset, near, amin, amax, csets>>
 Report ==
   /\ phase = "report"
   /\ \A j \in DOMAIN res : IF res[j][2] THEN TRUE ELSE PrintT(<<"FAIL", k, Name(res[j][1])>>)
@@ -111,6 +117,6 @@ Report ==
   /\ IF qi < Len(Cur.queries)
      THEN qi' = qi + 1 /\ phase' = "jumps" /\ UNCHANGED <<k, grp>>
      ELSE qi' = 0 /\ phase' = "load" /\ grp' = {} /\ UNCHANGED k
-  /\ jset' = {} /\ near' = <<>> /\ amin' = {} /\ amax' = {} /\ res' = <<>>
-Next == Load \/ StJumps \/ StNear \/ StAllow \/ StEval \/ Report
+  /\ jset' = {} /\ near' = <<>> /\ amin' = {} /\ amax' = {} /\ csets' = <<>> /\ res' = <<>>
+Next == Load \/ StJumps \/ StNear \/ StAllow \/ StSets \/ StEval \/ Report
 =============================================================================
